@@ -123,8 +123,19 @@ DESC = {
  "S117": ("C17", "`optimize_stage` keeps the previous plan when the extracted plan's cost is not finite (also for the stage that lowers subqueries)", "row estimates so large that the root cost overflows f32, and a subquery anywhere in the statement"),
  "S118": ("C16", "casts between TIMESTAMP and TIMESTAMPTZ return the array unchanged ('same i64 representation')", "a non-string TIMESTAMP value converted to TIMESTAMPTZ or back (CAST, INSERT ... SELECT)"),
  "S119": ("C20", "COPY TO computes its per-column 'has NULLs' flags from the first chunk only", "an export of several chunks with a NULL in a column whose first chunk has none"),
+ "S120": ("C14", "`Date + Interval`: the month wrap-around is rewritten with rem_euclid/div_euclid and the day-of-month clamp uses the year *before* the month carry", "a month interval that carries into the neighbouring year, target month February, day 29 or later, leap status differing across the carry (2019-12-31 + 2 months = 2020-02-28); folding gives the same wrong value"),
+ "S121": ("C15", "COPY TO no longer flushes after each chunk; the last buffer is written when the csv writer is dropped, which discards I/O errors", "an output whose write fails only at the final flush (whole output below 8 KiB, e.g. `copy t to '/dev/full'`): Ok with nothing written"),
+ "S122": ("C07", "the merge iterator's heap sift-down stops when the new root is <= its left child, without looking at the right child", "a keyed disk table with three or more live row-sets whose keys interleave; the ordered scan (and the compacted row-set) come out of order, range reads then lose rows"),
+ "S123": ("C06", "the plain blob/string block iterator caches the next value's start offset and `skip(cnt)` refreshes it from `offsets[cnt-1]` instead of `offsets[next_row-1]`", "a skip after the iterator has already moved inside one block (read-then-skip, skip-then-skip): the next value is the concatenation of the skipped ones"),
+ "S124": ("C08", "the version manager remembers dropped tables and lets the vacuum apply a deletion list whose row-sets all belong to a dropped table regardless of pinned epochs", "a reader pinned on T, another commit, then DROP TABLE T: the row-set directory is unlinked while the pinned snapshot contains it"),
+ "S125": ("C13", "`analyze_range` merges two key bounds on the same side instead of giving up, and the end side reuses the start side's comparison (keeps the looser upper bound)", "an equality and a looser upper bound on the INT key (`k = 5 AND k < 8`) with keys in between"),
+ "S126": ("C04", "`dv/` is created only when the database directory itself had to be created", "a crash during the very first open between mkdir <db> and mkdir <db>/dv: every later open fails in the boot-time DV vacuum"),
+ "S127": ("C03", "the boot-time scan that removes unreferenced row-set directories runs only if the replay saw a DeleteRowSet or dropped an orphan", "an INSERT of more than 1024 rows failing in a later chunk (unlogged directory left behind), clean shutdown, reopen, INSERT into the same table: AlreadyExists"),
 }
 STRENGTHENED = {
+ "S120": "missed by the first C14 (DATE +/- INTERVAL was judged by row isolation and fold-vs-run only, both of which agree with a kernel that is wrong in itself); caught after the calendar leg (an independent model of month / year / day arithmetic with month ends of leap and ordinary years and year carries drawn on purpose)",
+ "S121": "missed by the first C15 (faults were injected between operators or came from poison rows; no sink ever failed); caught after the natural-fault leg copies to `/dev/full` (outputs below and above the writer's buffer)",
+ "S127": "not run against the first C03, which had no failing multi-chunk INSERT in its histories and could not have seen it: the failed-bulk-insert episode (INSERT of 1030-2060 rows with a NULL for a NOT NULL column behind them, reopen, INSERT, check) was added after reading the agent's summary, then the change was run",
  "S112": "missed by the first C05 (keys were rarely duplicated inside one row-set and never probed value by value; C13 caught it); caught after the key-range probes and the table with long runs of equal INT keys were added",
  "S114": "missed by the first C18 and by C09 (with the 600-byte row-set target of C18's layout a compaction pass selects nothing, so the pass after the reads was a no-op); caught after the same damaged files are also opened with a large row-set target, where the pass merges the table's row-sets",
  "S115": "missed by the first C12 and by C05 (no INSERT had more than 60 rows, so none reached storage in two chunks); caught after a third of the keyed tables get one INSERT of 1030-2100 rows whose first 1024 keys ascend and whose later keys are smaller",
